@@ -18,6 +18,7 @@ _ACTIVE = [None]
 _UUID = re.compile(r'^[0-9a-f]{8}-[0-9a-f]{4}-[0-9a-f]{4}-[0-9a-f]{4}-[0-9a-f]{12}$')
 
 PREFIXES = ('none', 'half', 'allbut1')
+BUFFER_SIZE = 8192      # io.DEFAULT_BUFFER_SIZE: a buffered file hands its data to the OS in units of this size
 
 
 class Crash(BaseException):
@@ -71,11 +72,12 @@ def describe_fault(fault, log):
     """Human readable description of a fault against a recorded log (list of Op)."""
     op = log[fault.op] if 0 <= fault.op < len(log) else None
     where = '%s(%s)' % (op.name, op.path) if op else 'op#%d' % fault.op
+    data_op = op is not None and (op.name == 'write' or (op.name in ('flush', 'close') and op.size))
     if fault.kind == 'crash':
-        if op is not None and op.name == 'write':
+        if data_op:
             return 'crash in op %d %s after %s of its %s bytes' % (fault.op, where, {'none': 'none', 'half': 'half', 'allbut1': 'all but one'}[fault.prefix], op.size)
         return 'crash before op %d %s' % (fault.op, where)
-    if op is not None and op.name == 'write':
+    if data_op:
         return '%s raised by op %d %s after %s of its bytes were written' % (fault.err, fault.op, where, {'none': 'none', 'half': 'half', 'allbut1': 'all but one'}[fault.prefix])
     return '%s raised by op %d %s' % (fault.err, fault.op, where)
 
@@ -89,8 +91,9 @@ def enumerate_faults(log, crash=True, ioerror=True, both_errnos=False):
              errno ENOSPC for open/write/makedirs/copy, EIO for the rest (both for every op if both_errnos)."""
     out = []
     for op in log:
+        carries_data = op.name == 'write' or (op.name in ('flush', 'close') and (op.size or 0) > 0)
         if crash:
-            if op.name == 'write':
+            if carries_data:
                 seen = set()
                 for p in PREFIXES:
                     n = prefix_len(p, op.size or 0)
@@ -104,7 +107,7 @@ def enumerate_faults(log, crash=True, ioerror=True, both_errnos=False):
             errs = ('ENOSPC', 'EIO') if both_errnos else (('ENOSPC',) if op.name in ('open', 'write', 'makedirs', 'mkdir', 'symlink', 'link') else ('EIO',))
             for e in errs:
                 out.append(Fault('ioerror', op.index, 'none', e))
-                if op.name == 'write' and (op.size or 0) >= 2:
+                if carries_data and (op.size or 0) >= 2:
                     out.append(Fault('ioerror', op.index, 'half', e))
     return out
 
@@ -115,6 +118,7 @@ class FaultFile:
     def __init__(self, fs, path, mode, encoding=None, errors=None, newline=None):
         self._fs = fs
         self._path = path
+        self._rel = fs.rel(path)
         self.name = path
         self.mode = mode
         self._binary = 'b' in mode
@@ -126,6 +130,7 @@ class FaultFile:
             raise InterposerError('newline=%r is not modelled' % (newline,))
         raw_mode = ''.join(c for c in mode if c in 'rwxa+') + 'b'
         self._raw = _REAL['open'](path, raw_mode, buffering=0)
+        self._buf = bytearray() if fs.buffered else None
         self.closed = False
 
     # ---- plumbing
@@ -143,17 +148,36 @@ class FaultFile:
             raise ValueError('I/O operation on closed file.')
 
     # ---- mutating operations (logged)
-    def write(self, data):
-        self._check_open()
-        b = self._bytes(data)
-        fault = self._fs._begin('write', self._path, len(b))
+    def _emit(self, opname, b):
+        """One logged operation that moves the bytes b to the file (possibly torn by the fault)."""
+        fault = self._fs._begin(opname, self._path, len(b), rel=self._rel)
         if fault is not None:
             n = prefix_len(fault.prefix, len(b))
             if n:
                 self._raw.write(b[:n])
-            self._fs._raise(fault, self._path)
+            return fault
         if b:
             self._raw.write(b)
+        return None
+
+    def write(self, data):
+        self._check_open()
+        b = self._bytes(data)
+        if self._buf is not None:
+            # buffered model: like io.BufferedWriter the data stays in the process until the buffer is full, flush() or
+            # close(); a crash loses it. Not an operation on the file, hence not a boundary of the write log.
+            if self._fs.dead:
+                raise Crash()
+            self._buf += b
+            if len(self._buf) >= BUFFER_SIZE:
+                pending, self._buf = bytes(self._buf), bytearray()
+                fault = self._emit('write', pending)
+                if fault is not None:
+                    self._fs._raise(fault, self._path)
+            return len(data)
+        fault = self._emit('write', b)
+        if fault is not None:
+            self._fs._raise(fault, self._path)
         return len(data)
 
     def writelines(self, lines):
@@ -162,13 +186,18 @@ class FaultFile:
 
     def flush(self):
         self._check_open()
-        fault = self._fs._begin('flush', self._path)
+        if self._buf is not None:
+            pending, self._buf = bytes(self._buf), bytearray()
+            fault = self._emit('flush', pending)
+        else:
+            fault = self._fs._begin('flush', self._path, rel=self._rel)
         if fault is not None:
             self._fs._raise(fault, self._path)
 
     def truncate(self, size=None):
         self._check_open()
-        fault = self._fs._begin('ftruncate', self._path)
+        self._sync_for_read()
+        fault = self._fs._begin('ftruncate', self._path, rel=self._rel)
         if fault is not None:
             self._fs._raise(fault, self._path)
         return self._raw.truncate(size)
@@ -181,22 +210,33 @@ class FaultFile:
             self.closed = True
             self._raw.close()
             raise Crash()
-        fault = self._fs._begin('close', self._path)
         # unbuffered: closing the descriptor changes nothing on disk, so "crash before close" == "crash after close";
-        # an I/O error reported by close() leaves the descriptor closed, as close(2) does
+        # buffered: close() first moves the pending data to the file (which a fault may tear).
+        # An I/O error reported by close() leaves the descriptor closed, as close(2) / BufferedWriter.close() do.
+        if self._buf is not None:
+            pending, self._buf = bytes(self._buf), bytearray()
+            fault = self._emit('close', pending)
+        else:
+            fault = self._fs._begin('close', self._path, rel=self._rel)
         self.closed = True
         self._raw.close()
         if fault is not None:
             self._fs._raise(fault, self._path)
 
     # ---- non mutating
+    def _sync_for_read(self):
+        if self._buf:
+            raise InterposerError('reading back / seeking in a file with pending buffered writes is not modelled (%s)' % self._path)
+
     def read(self, n=-1):
         self._check_open()
+        self._sync_for_read()
         b = self._raw.read() if n is None or n < 0 else self._raw.read(n)
         return b if self._binary else b.decode(self.encoding, self.errors)
 
     def seek(self, *a):
         self._check_open()
+        self._sync_for_read()
         return self._raw.seek(*a)
 
     def tell(self):
@@ -240,12 +280,18 @@ class FaultFS:
     """Context manager. While active, mutating file operations on paths under `root` are logged and `fault` (if any) is
     injected at its log entry. Not re-entrant, not thread-safe (drive the code under test from one thread)."""
 
-    def __init__(self, root, fault=None):
+    def __init__(self, root, fault=None, buffered=False):
+        """buffered=False: every write() of the code under test reaches the file immediately (each one is a boundary;
+        models data being handed to the OS at any granularity). buffered=True: written data stays in the process until
+        the buffer fills, flush() or close() (what Python's buffered files really do for small files); then the
+        boundaries are open / [flush] / close / rename ... and a crash loses the pending data."""
         self.root = os.path.realpath(root)
+        self.buffered = buffered
         self.fault = fault
         self.log = []
         self.dead = False
         self.fired = False
+        self._dircache = {}     # valid for the lifetime of one FaultFS: the code under test does not re-point directories
 
     # ---- bookkeeping
     def inside(self, path):
@@ -259,25 +305,31 @@ class FaultFS:
             p = os.fsdecode(p)
         p = os.path.abspath(p)
         d, b = os.path.split(p)
-        p = os.path.join(os.path.realpath(d), b)
+        p = os.path.join(self._real_dir(d), b)
         return p == self.root or p.startswith(self.root + os.sep)
+
+    def _real_dir(self, d):
+        r = self._dircache.get(d)
+        if r is None:
+            r = self._dircache[d] = os.path.realpath(d)
+        return r
 
     def rel(self, path):
         p = os.path.abspath(os.fspath(path))
         d, b = os.path.split(p)
-        p = os.path.join(os.path.realpath(d), b)
+        p = os.path.join(self._real_dir(d), b)
         r = os.path.relpath(p, self.root)
         d, b = os.path.split(r)
         if _UUID.match(b):
             r = os.path.join(d, '<tmp>')
         return r
 
-    def _begin(self, name, path, size=None):
+    def _begin(self, name, path, size=None, rel=None):
         """Registers an op. Returns the fault to inject at this op, or None."""
         if self.dead:
             raise Crash()
         idx = len(self.log)
-        self.log.append(Op(idx, name, self.rel(path), size))
+        self.log.append(Op(idx, name, rel if rel is not None else self.rel(path), size))
         if self.fault is not None and not self.fired and self.fault.op == idx:
             self.fired = True
             return self.fault
